@@ -314,13 +314,19 @@ func checkCore(c Case) error {
 		if err := hx.Safe(func() error { st = bf.Stmt(n); return nil }); err != nil {
 			return fmt.Errorf("building statement %d panicked: %v", i, err)
 		}
-		for _, with := range []bool{false, true} {
+		for mode := 0; mode < 3; mode++ {
 			w := &countingWriter{}
 			var err error
 			if perr := hx.Safe(func() error {
-				if with {
+				switch mode {
+				case 1:
 					err = st.RenderWithFile(w, jen.NewFile(""))
-				} else {
+				case 2:
+					// with a File that is itself rendered unformatted: the fragment is formatted all the same
+					nf := jen.NewFile("p")
+					nf.NoFormat = true
+					err = st.RenderWithFile(w, nf)
+				default:
 					err = st.Render(w)
 				}
 				return nil
